@@ -302,6 +302,16 @@ REWARD = {
                         "comp.calculate(state=state, last_action_response=last_action_response)": ("component_value", "Z")}}}},
  ]}
 
+# ---- episode schedule ----
+ES = "src/primaite/session/episode_schedule.py"
+SCHEDULE = {
+ "enum_files": [], "types": {"exceeded_episode_list": "bool"},
+ "methods": [
+  {"path": ES, "cls": "EpisodeListScheduler", "fn": "__call__", "name": "EpisodeListScheduler_episode_index", "ret": "Z",
+   "until_stmt": "filenames_to_join =", "result_expr": "episode_num",
+   "exprs": {"len(self.schedule)": ("schedule_length", "Z")}},
+ ]}
+
 GROUPS = {
  "software": dict(SOFTWARE, gen="Gen/GenSoftware.v", eq="Proofs/GenEqSoftware.vo"),
  "killchain": dict(KILLCHAIN, gen="Gen/GenKillChain.v", eq="Proofs/GenEqKillChain.vo"),
@@ -320,6 +330,7 @@ GROUPS = {
  "nodescan": dict(NODESCAN, gen="Gen/GenNodeScan.v", eq="Proofs/GenEqNodeScan.vo"),
  "sessiongate": dict(SESSION, gen="Gen/GenSession.v", eq="Proofs/GenEqSession.vo"),
  "rewardsum": dict(REWARD, gen="Gen/GenReward.v", eq="Proofs/GenEqReward.vo"),
+ "schedule": dict(SCHEDULE, gen="Gen/GenSchedule.v", eq="Proofs/GenEqSchedule.vo"),
 }
 for _g in GROUPS.values():
     _g["functions"] = ["%s.%s" % (m["cls"], m["fn"]) for m in _g["methods"]]
